@@ -9,7 +9,8 @@
 (***************************************************************************)
 EXTENDS TLJson
 
-CONSTANTS K,        \* value modifications per path
+CONSTANTS EmitEdges, \* TRUE: every value-graph transition is printed too (histories for C09)
+          K,        \* value modifications per path
           KMut,     \* byte mutations are applied to values at depth < KMut
           KJson     \* alternative / invalid JSON spellings are derived from values at depth < KJson
 
@@ -20,8 +21,13 @@ NoEnv == <<>>
 
 Init == st \in {[kind |-> "val", tn |-> n, v |-> Default(n, NoEnv), k |-> 0] : n \in Tops}
 
+Enc(tn, v) == [tl1 |-> Enc1(tn, NoEnv, v, TRUE).b, tl1b |-> Enc1(tn, NoEnv, v, FALSE).b,
+               tl2 |-> IF TY(tn).tl2 THEN Enc2(tn, v, FALSE) ELSE <<>>, json |-> WJ(tn, NoEnv, v, "canon")]
 StepVal == /\ st.kind = "val" /\ st.k < K
-           /\ \E w \in Mods(st.tn, NoEnv, st.v) : st' = [st EXCEPT !.v = w, !.k = @ + 1]
+           /\ \E w \in Mods(st.tn, NoEnv, st.v) :
+                /\ st' = [st EXCEPT !.v = w, !.k = @ + 1]
+                /\ EmitEdges => PrintT(ToJson(<<"@@", [kind |-> "edge", tn |-> st.tn, hastl2 |-> TY(st.tn).tl2,
+                                                       from |-> Enc(st.tn, st.v), to |-> Enc(st.tn, w)]>>))
 
 Muts(b) == {SubSeq(b, 1, j) : j \in 0..(Len(b) - 1)}
            \cup {[b EXCEPT ![j] = (b[j] + 1) % 256] : j \in 1..Len(b)}
